@@ -2,6 +2,8 @@
 
 package slip
 
+import "strings"
+
 const (
 	// AmpBody is &body.
 	AmpBody = "&body"
@@ -44,7 +46,7 @@ type HasFuncDocs interface {
 
 func (fd *FuncDoc) getArg(name string) *DocArg {
 	for _, a := range fd.Args {
-		if a.Name == name {
+		if strings.EqualFold(a.Name, name) {
 			return a
 		}
 	}
